@@ -9,6 +9,8 @@ Op lines (every field one word):
     wake <idx> <credit|reconnect> <len> <window> setup=<op,…|-> thr=<op,…>/<op,…>/… order=<t.t.…|-> got=<status> fin=<sent>:<acked>:<0|1>
     tmo  <idx> … same …                       (short deadline: the deadline test may answer either way)
     imm  <idx> … same …                       (deadline already passed at entry: the test answers yes)
+    race <idx> … same as wake …               (a fast entry-race round)
+    trk  <idx> … same …                       (like tmo; `thr` = the trickle of non-enabling ops that ran)
 
 ops: `sent:N  ack:F:OFF  cancel:R  adv:F  res:F:OFF  push:OFF:LEN`;
 status: `ok | cancelled:R | resume:OFF | timeout | parked`.
@@ -69,6 +71,7 @@ def showStatus : PC → String
   | .start => "start"
   | .checking => "checking"
   | .woken => "woken"
+  | .preparking => "preparking"
 
 def showFin (s : Sh) : String := s!"{s.sent}:{s.acked}:{if s.cancelled.isSome then 1 else 0}"
 
@@ -96,10 +99,10 @@ def answer (idx : String) (expireds : List Bool) (kind len win setup thr order g
 def step (st : Unit) (ws : List String) : Unit × String :=
   match ws with
   | [cmd, idx, kind, len, win, su, th, ord, got, fin] =>
-    if cmd = "wake" ∨ cmd = "tmo" ∨ cmd = "imm" then
+    if cmd = "wake" ∨ cmd = "race" ∨ cmd = "tmo" ∨ cmd = "imm" ∨ cmd = "trk" then
       match field "setup" su, field "thr" th, field "order" ord, field "got" got, field "fin" fin with
       | some su, some th, some ord, some got, some fin =>
-        (st, answer idx (if cmd = "wake" then [false] else if cmd = "imm" then [true] else [false, true]) kind len win su th ord got fin)
+        (st, answer idx (if cmd = "wake" ∨ cmd = "race" then [false] else if cmd = "imm" then [true] else [false, true]) kind len win su th ord got fin)
       | _, _, _, _, _ => (st, idx ++ " bad-op")
     else (st, idx ++ " bad-op")
   | _ :: idx :: _ => (st, idx ++ " bad-op")
